@@ -20,10 +20,10 @@ import (
 
 func backedSender(n *Node) *FakeSender {
 	return &FakeSender{target: "10.7.0.1:10600",
-		utxos:     func(a string) ([]byte, error) { return json.Marshal(n.Ureg.Utxos(a)) },
-		firstTs:   func() (int64, error) { return n.Chain.FirstBlockTimestamp(), nil },
-		txs:       func() ([]byte, error) { return json.Marshal(n.Pool.Transactions()) },
-		getBlocks: func(h uint64) ([]byte, error) { return json.Marshal(n.Chain.Blocks(h)) },
+		utxos:     func(a string) ([]byte, error) { return n.ServedUtxosBytes(a) },
+		firstTs:   func() (int64, error) { return n.ServedFirstTimestamp() },
+		txs:       func() ([]byte, error) { return n.ServedPoolBytes() },
+		getBlocks: func(h uint64) ([]byte, error) { return n.ServedBlocksBytes(h) },
 	}
 }
 
@@ -69,8 +69,18 @@ func walletWorld(r *Rng, set *Settings, values []uint64, yieldingFirst bool) (*W
 	}
 	tx := w.build(&txPlan{ins: []spendable{conf[0]}, outs: outs, ts: w.now})
 	v.Pool.AddTransaction(tx, "a", "b")
+	pooled := len(v.Pool.Transactions()) == 1
 	w.now += set.Interval
 	v.Pool.Validate(w.now)
+	included := false
+	for _, t := range v.Chain.LastBlockTransactions() {
+		if t.Id() == tx.Id() {
+			included = true
+		}
+	}
+	// the transaction that creates the holdings is itself a wallet payment (dated at the tip's own
+	// timestamp): admitted, it must be in the next block
+	w.setupLost = pooled && !included
 	w.now += set.Interval
 	v.Pool.Validate(w.now) // holdings confirmed
 	v.Log.Take()
@@ -105,6 +115,9 @@ func runWalletSuite(seed uint64, n int, out *Out, stats *Stats) {
 		}
 		w, owner := walletWorld(r, set, values, r.Chance(1, 3))
 		v := w.host
+		if w.setupLost {
+			out.Violation("C18", id, "not-included\tthe payment that creates the wallet's holdings (dated at the tip's timestamp) was admitted by the pool but is not in the next block")
+		}
 		sender := backedSender(v)
 		// one to three payments in a row on the same validator: the later ones see what the earlier
 		// ones left (outputs of one transaction spent one by one, a wallet paying itself)
@@ -122,8 +135,14 @@ func runWalletSuite(seed uint64, n int, out *Out, stats *Stats) {
 				v.Log.Take()
 			}
 			selfPay := r.Chance(1, 3)
-			// the clock reading: anywhere inside the current slot
+			// the clock reading: anywhere inside the current slot, often exactly on its first or last instant
 			now := w.now + int64(r.U64n(uint64(set.Interval)))
+			switch r.Intn(6) {
+			case 0:
+				now = w.now
+			case 1:
+				now = w.now + set.Interval - 1
+			}
 			watch := &ScriptWatch{fallback: func() int64 { return now }}
 			ctl := apayment.NewInfoController(sender, set, watch, &CapLogger{})
 			// what the wallet holds, valued at the next block time (the controller's own valuation time)
@@ -286,6 +305,13 @@ func runWalletSuite(seed uint64, n int, out *Out, stats *Stats) {
 						included = true
 					}
 				}
+				offs := "inside"
+				if now == w.now {
+					offs = "first-instant"
+				} else if now == w.now+set.Interval-1 {
+					offs = "last-instant"
+				}
+				stats.Count(fmt.Sprintf("payment/clock %s of the slot/included=%v", offs, included))
 				if !included {
 					viol("not-included", "the transaction built from the answer is not in the next block: "+strings.Join(v.Log.Take(), " | "))
 				}
@@ -375,6 +401,10 @@ func runViewsSuite(seed uint64, n int, out *Out, stats *Stats) {
 					want := ef / float64(set.Units)
 					if got != want {
 						out.Violation("C19", id, fmt.Sprintf("amount-value\tbalance reported %v, the validator's outputs sum to %s units = %v", got, exact, want))
+						if values[0] == 0 && yieldingFirst {
+							// the wallet holds an income-only output: the displayed balance must show its growth (C09)
+							out.Violation("C09", id, fmt.Sprintf("income-not-displayed\ta wallet whose yielding output was created with value 0 is shown %v although its outputs are worth %v", got, want))
+						}
 					}
 				}
 			}
@@ -442,20 +472,25 @@ func runViewsSuite(seed uint64, n int, out *Out, stats *Stats) {
 		}
 		ctl := apayment.NewProgressController(sender, set, watch2, &CapLogger{})
 		if inject < 4 && !failFirst && !badBody && r.Chance(1, 3) {
-			// the same controller has served a request before, when its validator was still on a
-			// private chain with a younger genesis (it has re-synced onto the network chain since)
+			// the access node's controller and its validator have both served a request before, when
+			// the validator was still on a private chain with a younger genesis; the validator has
+			// re-synced onto the network chain since (one node, one set of handlers, throughout)
 			young := NewNode(set, w.wallets[2].Addr)
 			young.Pool.Validate(w.now - set.Interval)
 			ys := backedSender(young)
-			cur := ys
-			sw := &FakeSender{target: "10.7.0.1:10600",
-				utxos:     func(a string) ([]byte, error) { return cur.utxos(a) },
-				firstTs:   func() (int64, error) { return cur.firstTs() },
-				txs:       func() ([]byte, error) { return cur.txs() },
-				getBlocks: func(h uint64) ([]byte, error) { return cur.getBlocks(h) }}
-			ctl = apayment.NewProgressController(sw, set, watch2, &CapLogger{})
+			ctl = apayment.NewProgressController(ys, set, watch2, &CapLogger{})
 			ctl.GetTransactionProgress(httptest.NewRecorder(), httptest.NewRequest("PUT", "/transaction/output/progress", bytes.NewReader(body)))
-			cur = sender
+			helperSync(young, now2, []*Peer{honestPeer("10.7.0.9:10600", v)})
+			for _, t := range v.Pool.Transactions() {
+				young.Pool.AddTransaction(t, "a", "b")
+			}
+			young.Log.Take()
+			if len(young.AllBlocks()) == len(v.AllBlocks()) {
+				v = young
+				stats.Count("progress/validator re-synced onto an older chain between two requests")
+			} else {
+				ctl = apayment.NewProgressController(sender, set, watch2, &CapLogger{})
+			}
 		}
 		rec := httptest.NewRecorder()
 		ctl.GetTransactionProgress(rec, httptest.NewRequest("PUT", "/transaction/output/progress", bytes.NewReader(body)))
